@@ -11,11 +11,15 @@ def look {α : Type} (t : Tab α) (d : α) (k : Nat) : α :=
   | some p => p.2
   | none => d
 
+def cfg0 : Cfg :=
+  { idxMax := 0, rlMax := 0, svcMax := 0, svcEnabled := false, keepInvalid := true,
+    svcNilCheck := true }
+
 structure S where
-  cfg : Cfg := { idxMax := 0, rlMax := 0, svcMax := 0, svcEnabled := false, keepInvalid := true }
+  cfg : Cfg := cfg0
   len : Tab Nat := []
   idx : Tab (Option (List Entry)) := []
-  svcOk : Tab Bool := []
+  svc : Tab (Option (List SvcEntry)) := []
   hashOk : Tab Bool := []
   fresh : Tab Bool := []
   resp : Tab Resp := []
@@ -24,7 +28,7 @@ structure S where
   h : HSt := { mem := none, disk := none }
 
 def S.env (s : S) : Env :=
-  { len := look s.len 0, idx := look s.idx none, svcOk := look s.svcOk false,
+  { len := look s.len 0, idx := look s.idx none, svc := look s.svc none,
     hashOk := look s.hashOk false }
 
 /-- `g` = `Get` error; `status:c:cut:eofLast` = a response. -/
@@ -38,6 +42,10 @@ def parseEntries : List String → List Entry
     { key := nat! k, keyOk := bool! ko, urlOk := bool! uo, url := nat! u } :: parseEntries r
   | _ => []
 
+/-- `n` = null, `b` = bad id, anything else = a service that converts. -/
+def parseSvcEntries (ts : List String) : List SvcEntry :=
+  ts.map fun t => if t == "n" then .null else if t == "b" then .badId else .ok
+
 def optNat (t : String) : Option Nat := if t == "-" then none else some (nat! t)
 
 def showO : Option Nat → String
@@ -48,24 +56,48 @@ def insertKey (ks : List Nat) (k : Nat) : List Nat :=
   if ks.contains k then ks else
   (ks.filter (· < k)) ++ k :: (ks.filter (· > k))
 
-def showSt (s : S) (ok : Bool) : String :=
+/-- The same state with the two maps rebuilt from evaluated tables over the keys seen so far.  The
+model's maps are functions; without this the closures of all earlier rounds stay in the chain and
+are re-entered on every look-up (exponentially often through `keepPrev`).  Keys outside `keys`
+have never been named by any document or file, so both maps are `none` there anyway. -/
+def normSt (keys : List Nat) (st : St) : St :=
+  let rl : Tab (Option Nat) := keys.map fun k => (k, st.rl k)
+  let rd : Tab (Option Nat) := keys.map fun k => (k, st.rlDisk k)
+  { st with rl := look rl none, rlDisk := look rd none }
+
+def showSt (s : S) (ok : String) : String :=
   let rls := s.keys.filterMap fun k =>
     match s.st.rl k, s.st.rlDisk k with
     | none, none => none
     | m, d => some (toString k ++ ":" ++ showO m ++ "/" ++ showO d)
-  "ok=" ++ showB ok ++ " idx=" ++ showO s.st.idxDisk ++ " svc=" ++ showO s.st.svc ++ "/" ++
+  "ok=" ++ ok ++ " idx=" ++ showO s.st.idxDisk ++ " svc=" ++ showO s.st.svc ++ "/" ++
     showO s.st.svcDisk ++ " rl=" ++ ",".intercalate rls
 
+/-- Whether the context gets cancelled in the round (so that the services are not reached). -/
+def addUntilCancelled (s : S) (R : Round) (u : Nat) : Bool :=
+  match (refresh s.env s.cfg.idxMax R.acceptStale s.st.idxDisk R.idxFresh R.idxResp).1 with
+  | none => false
+  | some d =>
+    match s.env.idx d with
+    | none => false
+    | some es =>
+      (addUntilCancel s.env s.cfg R s.st.rl u ⟨fun _ => none, s.st.rlDisk⟩ (toInternal es)).2
+
 def step (s : S) : List String → S × String
-  | ["cfg", im, rm, sm, se, ki] =>
+  | ["cfg", im, rm, sm, se, ki, nc] =>
     ({ cfg := { idxMax := nat! im, rlMax := nat! rm, svcMax := nat! sm, svcEnabled := bool! se,
-                keepInvalid := bool! ki } }, "ok")
+                keepInvalid := bool! ki, svcNilCheck := bool! nc } }, "ok")
+  -- a restart with another configuration: the size limits change, the state stays
+  | ["max", im, rm, sm] =>
+    ({ s with cfg := { s.cfg with idxMax := nat! im, rlMax := nat! rm, svcMax := nat! sm } }, "ok")
   | ["len", c, n] => ({ s with len := (nat! c, nat! n) :: s.len }, "ok")
   | "doc" :: c :: jsonOk :: rest =>
     let es := parseEntries rest
     ({ s with idx := (nat! c, if bool! jsonOk then some es else none) :: s.idx,
               keys := es.foldl (fun ks e => insertKey ks e.key) s.keys }, "ok")
-  | ["svcok", c, b] => ({ s with svcOk := (nat! c, bool! b) :: s.svcOk }, "ok")
+  | "svcdoc" :: c :: jsonOk :: rest =>
+    ({ s with svc := (nat! c, if bool! jsonOk then some (parseSvcEntries rest) else none) :: s.svc },
+      "ok")
   | ["hashok", c, b] => ({ s with hashOk := (nat! c, bool! b) :: s.hashOk }, "ok")
   | ["fresh", k, b] => ({ s with fresh := (nat! k, bool! b) :: s.fresh }, "ok")
   | ["resp", u, r] => ({ s with resp := (nat! u, parseResp r) :: s.resp }, "ok")
@@ -81,8 +113,18 @@ def step (s : S) : List String → S × String
                        resp := look s.resp .getErr, svcFresh := bool! svcFresh,
                        svcResp := parseResp svcResp }
     let res := refreshStorage s.env s.cfg s.st R
-    let s' := { s with st := res.1, fresh := [], resp := [] }
-    (s', showSt s' res.2)
+    let s' := { s with st := normSt s.keys res.1, fresh := [], resp := [] }
+    (s', showSt s' (if refreshPanics s.env s.cfg s.st R then "p" else showB res.2))
+  -- the request for rule-list URL `u` cancels the context of the round
+  | ["roundc", acc, idxFresh, idxResp, svcFresh, svcResp, u] =>
+    let R : Round := { acceptStale := bool! acc, idxFresh := bool! idxFresh,
+                       idxResp := parseResp idxResp, fresh := look s.fresh false,
+                       resp := look s.resp .getErr, svcFresh := bool! svcFresh,
+                       svcResp := parseResp svcResp }
+    let res := refreshStorageCancel s.env s.cfg s.st R (nat! u)
+    let s' := { s with st := normSt s.keys res.1, fresh := [], resp := [] }
+    (s', showSt s' (if !(addUntilCancelled s R (nat! u)) && refreshPanics s.env s.cfg s.st R then "p"
+                    else showB res.2))
   | ["restart"] => ({ s with st := restart s.st }, "ok")
   | ["hash", max, acc, fresh, r] =>
     let res := refreshHash s.env (nat! max) (bool! acc) s.h (bool! fresh) (parseResp r)
